@@ -1236,8 +1236,10 @@ def _needs(env, cfg):
     return edctx.has_curve(env, cfg)
 
 
-def _cfgs():
-    return {"quick": ["p255"], "thorough": ["p255", "p255-extnd", "p255-basic"]}
+def _cfgs(r_=0):
+    # quick: the second round of every target runs on the extended-coordinate build (T is only carried there), the
+    # others on the projective default, so both coordinate systems are in the quick tier at the same total cost
+    return {"quick": ["p255-extnd"] if r_ == 1 else ["p255"], "thorough": ["p255", "p255-extnd", "p255-basic"]}
 
 
 # core orders jobs by target (its interleaving key is monotonic in the job number), so when the wall-clock budget is hit
@@ -1259,7 +1261,7 @@ def round_names(name):
     return [name] + ["%s~%d" % (name, r) for r in range(2, ROUNDS + 1)]
 
 
-TARGETS = [Target(round_names(n_)[r_], s_, f_, _cfgs(), quick=q_ // ROUNDS, thorough=t_ // ROUNDS, needs=_needs)
+TARGETS = [Target(round_names(n_)[r_], s_, f_, _cfgs(r_), quick=q_ // ROUNDS, thorough=t_ // ROUNDS, needs=_needs)
            for r_ in range(ROUNDS) for (n_, s_, f_, q_, t_) in _BASE]
 
 
